@@ -65,6 +65,10 @@ PREFIXES = {
     "oldpwd_deleted": [_step("cd", _arg("abs", ["r", "b"])), _step("cd", _arg("abs", ["r", "a"])), _step("rmdir", _arg("abs", ["r", "b"]))],
     "in_k": [_step("pushd", _arg("abs", ["r", "b"])), _step("cd", _arg("abs", ["r", "k"]))],
 }
+def _setconf(conf):
+    return {"cmd": "setconf", "arg": _arg("none"), "flag": False, "conf": conf}
+
+
 TAIL = [_step("dirs", _arg("show")), _step("popd", _arg("none")), _step("dirs", _arg("show"))]
 
 
@@ -93,16 +97,31 @@ def systematic(tier, rng):
                 if not _arg_ok(name, c):
                     continue
                 scns.append({"conf": conf, "steps": pre + [c] + TAIL, "src": f"sys:{name}"})
+    # settings changed in mid-session: build a deep stack under a large limit, then shrink it / flip a switch
+    deep = [_step("pushd", _arg("abs", p)) for p in (["r", "a"], ["r", "a", "c"], ["r", "b"], ["r", "l"], ["r"])]
+    for conf in cs:
+        if conf["size"] != 20:
+            continue
+        for new in cs:
+            if new == conf or (tier == "quick" and new["cdpath"] != conf["cdpath"]):
+                continue
+            for c in rng.sample(cmds, 12 if tier == "quick" else 40):
+                if _arg_ok("stack3", c):
+                    scns.append({"conf": conf, "steps": deep + [_setconf(new), c] + TAIL, "src": "sys:reconf"})
     if tier == "quick":
         rng.shuffle(scns)
-        scns = scns[:2500]
+        scns = scns[:3000]
     return scns
 
 
 def from_behaviours(behs):
     scns = []
     for b in behs:
-        steps = [s["act"] for s in b[1:]]
+        steps = []
+        for s in b[1:]:
+            if s["act"]["cmd"] == "fixcwd":
+                continue  # the driver inserts the resynchronisation after every command itself
+            steps.append(dict(s["act"], conf=s["conf"]) if s["act"]["cmd"] == "setconf" else s["act"])
         scns.append({"conf": b[0]["conf"], "steps": steps + [_step("dirs", _arg("show"))], "src": "tlc-sim"})
     return scns
 
@@ -124,7 +143,7 @@ def run(tier, seed, replay=None):
     sim_cfg = open(os.path.join(tlc.SPECS, "DirStack_thorough.cfg")).read()
     if replay:
         payload = json.load(open(replay))["payload"]
-        scns = [{"conf": payload["trace"]["conf"], "steps": [{k: s[k] for k in ("cmd", "arg", "flag")} for s in payload["trace"]["steps"]], "src": "replay"}]
+        scns = [{"conf": payload["trace"]["conf"], "steps": [{k: s[k] for k in ("cmd", "arg", "flag", "conf")} for s in payload["trace"]["steps"] if s["cmd"] != "fixcwd"], "src": "replay"}]
         mc = {"states": 0, "distinct": 0}
     else:
         mc = tlc.model_check(SPEC, cfg_text=cfg_text, coverage=True, timeout=3000 if tier == "thorough" else 600)
